@@ -30,6 +30,10 @@ CONFIGS = {
     "tm1":   dict(ASSERT=0, FILL=1, FENCE=0, LEAK=1, PTR=1, DOUBLE=0, TMODE=1),
     # a mixed configuration: the fence macro is set but fill is off (so the effective fence size is 0), checks on
     "rf8":   dict(ASSERT=0, FILL=0, FENCE=8, LEAK=1, PTR=1, DOUBLE=0, TMODE=2),
+    # the two options the presets always switch together, apart: leak checking without pointer checking and the
+    # other way round (C15 exit part; seeded change C15-w7-2 keyed the global leak checker to the wrong option)
+    "lk":    dict(ASSERT=0, FILL=0, FENCE=0, LEAK=1, PTR=0, DOUBLE=0, TMODE=2),
+    "pk":    dict(ASSERT=0, FILL=0, FENCE=0, LEAK=0, PTR=1, DOUBLE=0, TMODE=2),
 }
 
 WRAPS = ["malloc", "free", "mmap", "munmap", "mprotect", "madvise", "_ZnwmRKSt9nothrow_t", "_ZdlPv",
